@@ -22,5 +22,7 @@ def run(rep, tier, seed):
         if len(s3) < 2: s3.append(case)
         if fail: rep.violation('op:' + name, 'special-point', '%s (D=%d,P=%d): %s' % (case['op'], case['D'], case['P'], fail), {'kind': 'op', 'case': case, 'failure': fail})
     rep.add_bounded('special base points vs mpmath', m, len(keys), 'every elementary/special function with the zeroth coefficient exactly 0, 1 or -1 (where inside the domain of smoothness) and generic higher coefficients, against the Faa di Bruno composition of mpmath derivatives; a non-finite coefficient is a failure', s3, 'D<=5, P<=3')
+    from .opbased import integer_part
+    integer_part(rep, 'C01', tier, seed, ('elementwise',))
     rep.assume(*[ASSUME[k] for k in ('A1', 'A3', 'A4', 'A5', 'A6', 'A8', 'A8b', 'A9', 'A10', 'A11', 'CPLX')])
     return rc
